@@ -49,7 +49,7 @@ structure Mst where
   name : Bytes
   schema : Schema
   points : List Point
-deriving Repr
+deriving Repr, DecidableEq
 
 abbrev Db := List Mst
 
